@@ -721,6 +721,30 @@ func (r *c08Run) famHashMismatch(v int) {
 				note(sr, how)
 			}
 		}
+		// the same with the return-after-error flag (the route of a refund): a different hash must still be rejected.
+		// (a) sender-side execution flagged return-after-error; (b) destination-side execution of the real message with the flag
+		// (= the refund of a rejected delivery whose ORIGINAL sender meanwhile holds another hash under that nonce)
+		for _, how := range []string{"single", "multi"} {
+			args := [][]byte{tok, be(1), be(2), a}
+			fn := "ESDTNFTTransfer"
+			if how == "multi" {
+				fn, args = "MultiESDTNFTTransfer", [][]byte{a, be(1), tok, be(1), be(2)}
+			}
+			cs := s.w.mkCall(s.w.shardOf(b), fn, b, b, args, bigGas)
+			cs.RAE = true
+			cs.CallType = 2 /* AsynchronousCallBack */
+			sr := s.do(&worldOp{Kind: opTx, Call: cs})
+			if srOK(sr) && len(sr.NewMsgs) > 0 {
+				for _, mm := range sr.NewMsgs {
+					// deliver by hand with the flag set
+					dcs := &callSpec{Shard: s.w.shardOf(mm.Dest), Fn: mm.Fn, Caller: mm.Caller, Rcpt: mm.Dest, Args: cloneArgs(mm.Args), Value: big.NewInt(0),
+						Gas: mm.GasLimit, CallType: 2 /* AsynchronousCallBack */, RAE: true, Snd: false, Dst: true, FailAt: -1}
+					note(s.do(&worldOp{Kind: opTx, Call: dcs}), how+"-rae-delivery")
+				}
+			} else {
+				note(sr, how+"-rae")
+			}
+		}
 		// nonce 2: same hash, different attributes: accepted, destination adopts the incoming copy
 		sr := s.tx(b, b, "ESDTNFTTransfer", bigGas, tok, be(2), be(3), a)
 		s.deliverNew(sr)
